@@ -68,17 +68,19 @@ KeySpace(maxdeg) ==
   IN base \cup nb
 
 \* polynomial specifications for label l under `k` (the trimmed keys)
-DegChoices(k) == IF Fam = "ml" THEN {0} ELSE 1..EffSup(S, k)
+\* honest sessions stay within the REQUESTED supported degree (IPA pads it; see Admission)
+HonSup(k) == IF S = "ipa" THEN k.sup ELSE EffSup(S, k)
+DegChoices(k) == IF Fam = "ml" THEN {0} ELSE 1..HonSup(k)
 BoundChoices(k, deg) ==
   {NONE} \cup (IF EnforcesBounds(S) /\ Mode # "C06x"
-               THEN (IF S = "ipa" THEN {d \in deg..EffSup(S, k) : d \in {deg, EffSup(S, k)}}
+               THEN (IF S = "ipa" THEN {d \in deg..HonSup(k) : d \in {deg, HonSup(k)}}
                      ELSE {d \in BoundSet(k) : d >= deg})
                ELSE {})
 HidChoices(k) == {NONE} \cup (IF HonoursHiding(S) THEN {h \in 1..k.hid : h \in {1, k.hid}} ELSE {})
 
 InDomainPolys(k, l) ==
   {[l |-> l, cls |-> c, deg |-> d, lz |-> (IF c = "lowz" THEN 1 ELSE 0), bound |-> b, hid |-> h] :
-      c \in ClsSet, d \in DegChoices(k), b \in {NONE} \cup BoundSet(k) \cup {0, EffSup(S, k)}, h \in HidChoices(k)}
+      c \in ClsSet, d \in DegChoices(k), b \in {NONE} \cup BoundSet(k) \cup {0, HonSup(k)}, h \in HidChoices(k)}
 
 PolyOK(k, p, r) ==
   /\ CommitClass1(S, pp.maxdeg, pp.nv, k, p, r) \in {"ok", "panics"}
@@ -108,7 +110,7 @@ BoundaryPolys(k, l) ==
 
 \* a small pool for the second and later polynomials (keeps the product finite and relevant)
 ExtraPolys(k, l) ==
-  LET es == EffSup(S, k)
+  LET es == HonSup(k)
       d1 == IF Fam = "ml" THEN 0 ELSE 1
       top == IF Fam = "ml" THEN 0 ELSE es
       bset == BoundChoices(k, top) \ {NONE}
@@ -417,7 +419,7 @@ PlansC04(st) ==
       \* every other label: enforced bounds, and for Marlin / Sonic also the bounds the keys were NOT trimmed
       \* for (in between and above the enforced ones): an unsupported label must be an error, not a look-up
       \* of a neighbouring bound
-      ld \in {x \in BoundedLabels \X (IF S = "ipa" THEN 1..EffSup(S, keys) ELSE 1..pp.maxdeg) :
+      ld \in {x \in BoundedLabels \X (IF S = "ipa" THEN 1..HonSup(keys) ELSE 1..pp.maxdeg) :
                  ~SameBound(x[2], polys[x[1]].bound) /\ (x[2] >= DegOf(polys[x[1]]) \/ x[2] \notin BoundSet(keys))}}
   \* the degree-bound part dropped / randomised: for a polynomial that contributes to the proof
   \* (for an unblinded constant, "no bound" is a true statement and the proof is trivial)
@@ -774,7 +776,7 @@ ClaimsTrue(st) ==
 \* --------------------------------------------------------------------------
 Init ==
   /\ pc = "setup" /\ pp = [maxdeg |-> 0, nv |-> NONE, cls |-> "", wf |-> TRUE]
-  /\ keys = [sup |-> 0, hid |-> 0, nobounds |-> TRUE, bounds |-> <<>>, cls |-> "", maxdeg |-> 0, wf |-> TRUE]
+  /\ keys = [sup |-> 0, vsup |-> 0, hid |-> 0, nobounds |-> TRUE, bounds |-> <<>>, cls |-> "", maxdeg |-> 0, wf |-> TRUE]
   /\ polys = <<>> /\ rng = TRUE /\ ops = <<>> /\ prs = <<>> /\ spP = <<>> /\ spAfter = <<>>
   /\ stmts = <<>> /\ adv = <<>> /\ advname = "" /\ want = "" /\ spV = <<>> /\ outs = <<>> /\ ser = <<>>
 
@@ -791,8 +793,15 @@ Trim ==
   /\ \E k \in KeySpace(pp.maxdeg) :
        LET c == TrimClass(S, pp.maxdeg, k) IN
        /\ HonestMode => c = "ok"
-       /\ keys' = [sup |-> k.sup, hid |-> k.hid, nobounds |-> k.nobounds, bounds |-> k.bounds, cls |-> c, wf |-> pp.wf,
-                   maxdeg |-> EffMax(S, pp.maxdeg)]
+       \* C04: the verifier's key may come from another trim of the same parameters (other supported degree, same
+       \* hiding bound and bound list).  Keys from the same parameters interoperate -- for IPA when both supported
+       \* degrees round to the same 2^k - 1 -- so the abstract state is the same; the harness performs the second trim.
+       /\ \E vs \in (IF Mode = "C04" /\ c = "ok" /\ S \in {"marlin", "sonic", "ipa"}
+                      THEN {x \in SupSet : /\ TrimClass(S, pp.maxdeg, [k EXCEPT !.sup = x]) = "ok"
+                                           /\ S = "ipa" => RoundIpa(x) = RoundIpa(k.sup)}
+                      ELSE {k.sup}) :
+            keys' = [sup |-> k.sup, vsup |-> vs, hid |-> k.hid, nobounds |-> k.nobounds, bounds |-> k.bounds, cls |-> c, wf |-> pp.wf,
+                     maxdeg |-> EffMax(S, pp.maxdeg)]
        /\ pc' = IF c = "ok" THEN "commit" ELSE "done"
   /\ UNCHANGED <<pp, polys, rng, ops, prs, spP, spAfter, stmts, adv, advname, want, spV, outs, ser>>
 
@@ -893,7 +902,7 @@ OpJson(o) == [kind |-> o.kind, labels |-> o.labels, pt |-> o.pt,
 Behaviour ==
   [prop |-> Mode, scheme |-> S, tag |-> advname,
    max_degree |-> pp.maxdeg, num_vars |-> pp.nv, wf |-> pp.wf,
-   supported |-> keys.sup, hiding |-> keys.hid, bounds |-> keys.bounds, nobounds |-> keys.nobounds,
+   supported |-> keys.sup, vsupported |-> keys.vsup, hiding |-> keys.hid, bounds |-> keys.bounds, nobounds |-> keys.nobounds,
    polys |-> polys, rng |-> rng,
    note |-> IF polys # <<>> /\ CommitClass(S, pp.maxdeg, pp.nv, keys, polys, rng) = "zero_hid" THEN "hiding_zero_only" ELSE "",
    ops |-> [k \in DOMAIN ops |-> OpJson(ops[k])],
